@@ -116,6 +116,9 @@ type cse struct {
 
 	mu        sync.Mutex
 	fault     *faultSpec
+	hold      *holdSpec // overlap cases: the response of process A that is being held
+	ovShape   string
+	ovAt      int
 	t1Used    bool // the single known-trigger fault (5xx on a verifiable listing) has been injected
 	t1At      int
 	t1Later   bool // verify5xx flavor: the fault hits the pages after the first one (needs pagination)
@@ -215,6 +218,9 @@ func reqStrings(reqs []*fakelfs.Request) []string {
 	var out []string
 	for _, r := range reqs {
 		s := fmt.Sprintf("%s %s %s", r.User, r.Kind, fmt.Sprint(r.Status))
+		if r.Header.Get(internalHeader) != "" {
+			s += " (the held request, forwarded to the server by the driver's hook)"
+		}
 		if r.Kind == "lock-create" {
 			if p, ok := r.JSON["path"].(string); ok {
 				s += " path=" + p
